@@ -20,28 +20,65 @@ open IstioModel.C03 IstioModel.C04
 /-! ## Every re-sent subscription is answered -/
 
 /-- SotW: on a fresh stream a request of any type, with any retained nonce and any names, is
-    answered (unless it is an unsubscribe or a NACK), and the record is what was asked. -/
+    answered (unless it is an unsubscribe), and the record is what was asked - ALSO when it carries
+    `error_detail`: a NACK the proxy had queued when the previous stream broke is, on this stream, the first
+    request of the type (repair a581d69; see `nack_first_unanswered_witness_unfixed`). -/
 theorem reconnect_request_answered_sotw (s : State) (t : Ty) (names : List String) (oldNonce : String)
+    (err : Option String)
     (hfresh : s t = none) (hsub : (names.isEmpty && !t.wildcard) = false) :
-    shouldRespond s { ty := t, names := names, nonce := oldNonce, err := none }
-      = .out true [] (newWatched s t names) :=
-  first_request_or_reconnect_responds s _ hfresh rfl (by simpa [Req.unsub] using hsub)
+    shouldRespond s { ty := t, names := names, nonce := oldNonce, err := err }
+      = .out true [] (newWatched s t names) := by
+  cases err with
+  | none => exact first_request_or_reconnect_responds s _ hfresh rfl (by simpa [Req.unsub] using hsub)
+  | some msg =>
+    rw [nack_unwatched_is_first_request s _ msg rfl hfresh]
+    exact first_request_or_reconnect_responds s _ hfresh rfl (by simpa [Req.unsub, Req.clean] using hsub)
 
 /-- Delta: on a fresh stream any request (any nonce, any subscribe / unsubscribe /
-    initial_resource_versions) is answered. -/
-theorem reconnect_request_answered_delta (s : State) (r : DReq) (hfresh : s r.ty = none) (herr : r.err = none) :
+    initial_resource_versions, with or without `error_detail`) is answered. -/
+theorem reconnect_request_answered_delta (s : State) (r : DReq) (hfresh : s r.ty = none) :
     ∃ s', shouldRespondDelta s r = .out true s' :=
-  delta_first_request_or_reconnect_responds s r hfresh herr
+  ⟨_, delta_unwatched_is_first_request s r hfresh⟩
+
+/-- What a client observes of a handled SotW request: (answered?, type watched afterwards?). -/
+def observedS (x : C04.Res) (t : Ty) : Bool × Bool :=
+  match x with
+  | .out b _ s' => (b, (s' t).isSome)
+  | .crash => (false, false)
+
+def observedD (x : DRes) (t : Ty) : Bool × Bool :=
+  match x with
+  | .out b s' => (b, (s' t).isSome)
+  | .crash => (false, false)
+
+/-- **The gap before repair a581d69.**  On a fresh stream the code returned early for a request with
+    `error_detail` and created no watch: the SotW request (named EDS, wildcard CDS) and the delta request that
+    subscribes the legacy way were neither answered nor would the type ever be pushed on that stream (no watch);
+    only a delta NACK that carried a subscription was answered.  With the repair all of them are answered. -/
+theorem nack_first_unanswered_witness_unfixed :
+    let old : Repairs := { nackFirst := false }
+    let eds : Req := { ty := .eds, names := ["a"], nonce := "old", err := some "rejected" }
+    let cds : Req := { ty := .cds, names := [], nonce := "old", err := some "rejected" }
+    let dcds : DReq := { ty := .cds, sub := [], unsub := [], init := ["a"], nonce := "old", err := some "rejected" }
+    let deds : DReq := { ty := .eds, sub := ["a"], unsub := [], init := ["a"], nonce := "old", err := some "rejected" }
+    observedS (shouldRespondR old State.empty eds) .eds = (false, false) ∧
+    observedS (shouldRespondR old State.empty cds) .cds = (false, false) ∧
+    observedD (shouldRespondDeltaG true true false State.empty dcds) .cds = (false, false) ∧
+    observedD (shouldRespondDeltaG true true false State.empty deds) .eds = (true, true) ∧
+    observedS (shouldRespond State.empty eds) .eds = (true, true) ∧
+    observedS (shouldRespond State.empty cds) .cds = (true, true) ∧
+    observedD (shouldRespondDelta State.empty dcds) .cds = (true, true) := by
+  decide
 
 /-- The whole handler: on a fresh stream the SotW request is answered with exactly what the
     generator produces for the requested names. -/
-theorem reconnect_processSotw (gen : Gen) (v : Srv) (t : Ty) (names : List String) (oldNonce : String)
+theorem reconnect_processSotw (gen : Gen) (v : Srv) (t : Ty) (names : List String) (oldNonce : String) (err : Option String)
     (hfresh : v.st t = none) (hsub : (names.isEmpty && !t.wildcard) = false) (hok : v.fail = false)
     (hgen : (gen t names).resNil = false) :
-    ∃ v', processSotw gen v { ty := t, names := names, nonce := oldNonce, err := none }
+    ∃ v', processSotw gen v { ty := t, names := names, nonce := oldNonce, err := err }
       = some (v', [{ ty := t, resources := (gen t names).res, removed := [], nonce := freshNonce v }]) := by
   unfold processSotw
-  rw [reconnect_request_answered_sotw v.st t names oldNonce hfresh hsub]
+  rw [reconnect_request_answered_sotw v.st t names oldNonce err hfresh hsub]
   simp only [pushSotwOne, newWatched_self, narrowedSotw, List.isEmpty_nil, Bool.not_true, Bool.false_eq_true,
     if_false, pushSotw, hgen, hok]
   exact ⟨_, rfl⟩
@@ -56,7 +93,7 @@ theorem eds_after_cds_answered (s : State) (w : WR) (cdsNames : List String) (ol
     ∃ s1, shouldRespond s { ty := .cds, names := cdsNames, nonce := oldNonce, err := none } = .out true [] s1 ∧
       ∃ s2, shouldRespond s1 { ty := .eds, names := w.names, nonce := w.nonceSent, err := none } = .out true [] s2 := by
   refine ⟨newWatched s .cds cdsNames,
-    reconnect_request_answered_sotw s .cds cdsNames oldNonce hcds (by simp [Ty.wildcard]), ?_⟩
+    reconnect_request_answered_sotw s .cds cdsNames oldNonce none hcds (by simp [Ty.wildcard]), ?_⟩
   have h1 : newWatched s .cds cdsNames .eds = some { w with always := true } := by
     simp [newWatched, Ty.warming, markWarming, State.set, heds]
   have hu : ({ ty := .eds, names := w.names, nonce := w.nonceSent, err := none } : Req).unsub = false := by
@@ -75,7 +112,7 @@ theorem eds_after_cds_answered_any_names (s : State) (w : WR) (cdsNames names : 
     ∃ s1, shouldRespond s { ty := .cds, names := cdsNames, nonce := oldNonce, err := none } = .out true [] s1 ∧
       ∃ s2, shouldRespond s1 { ty := .eds, names := names, nonce := w.nonceSent, err := none } = .out true [] s2 := by
   refine ⟨newWatched s .cds cdsNames,
-    reconnect_request_answered_sotw s .cds cdsNames oldNonce hcds (by simp [Ty.wildcard]), ?_⟩
+    reconnect_request_answered_sotw s .cds cdsNames oldNonce none hcds (by simp [Ty.wildcard]), ?_⟩
   have h1 : newWatched s .cds cdsNames .eds = some { w with always := true } := by
     simp [newWatched, Ty.warming, markWarming, State.set, heds]
   have hu : ({ ty := .eds, names := names, nonce := w.nonceSent, err := none } : Req).unsub = false := by
@@ -130,31 +167,35 @@ theorem reconnect_resync_delta_wild (t : Ty) (hset : shouldSetWatched t = true) 
 
 /-- The same at the level of the whole request handler (`processDeltaRequest`, tied to the real code
     by the `book` / `reconn` streams): a fresh stream, a wildcard non-managed type other than CDS
-    (whose request additionally forces an EDS push), a generator producing the full current set. -/
+    (whose request additionally forces an EDS push; see `reconnect_processDelta_cds`), a generator producing the
+    full current set; ANY subscription list (the explicit `*`, the legacy empty one, extra names - the generator of
+    such a type answers with the full set whatever it is asked), any nonce, with or without `error_detail` (a
+    queued NACK). -/
 theorem reconnect_processDelta_wild (gen : Gen) (v : Srv) (t : Ty)
     (hset : shouldSetWatched t = true) (hnr : neverRemove t = false) (hcds : t ≠ .cds)
     (hfresh : v.st t = none) (hok : v.fail = false)
-    (retained : Held) (init : List String) (oldNonce : String) (W : List C03.Res)
+    (retained : Held) (sub init : List String) (oldNonce : String) (err : Option String) (W : List C03.Res)
     (hgen : ∀ wn, gen t wn = fullOut W)
     (hreport : ∀ n ∈ names retained, n ∈ init) (hstar : "*" ∉ names retained) :
-    ∃ v' wire, processDelta gen v { ty := t, sub := ["*"], unsub := [], init := init, nonce := oldNonce, err := none }
+    ∃ v' wire, processDelta gen v { ty := t, sub := sub, unsub := [], init := init, nonce := oldNonce, err := err }
         = some (v', [wire]) ∧
       InSync (applyDelta retained { resources := wire.resources, removed := wire.removed }) W ∧
       ∃ w', v'.st t = some w' ∧ w'.names = names W := by
-  let r : DReq := { ty := t, sub := ["*"], unsub := [], init := init, nonce := oldNonce, err := none }
+  let r : DReq := { ty := t, sub := sub, unsub := [], init := init, nonce := oldNonce, err := err }
   have hman : t.managed = false := by
     cases t <;> simp_all [shouldSetWatched, Ty.managed, Ty.wildcard]
   let wn := (deltaWatched [] r).1
-  have hwn : wn = (deltaWatched [] { ty := .cds, sub := ["*"], unsub := [], init := init, nonce := "", err := none }).1 := by
+  have hwn : wn = (deltaWatched [] { ty := .cds, sub := sub, unsub := [], init := init, nonce := "", err := none }).1 := by
     simp [wn, r, deltaWatched]
   have hcover : ∀ n ∈ names retained, n ∈ wn := by
     intro n hn
     have hne : n ≠ "*" := fun e => hstar (e ▸ hn)
     rw [hwn]
-    exact (mem_deltaWatched_first ["*"] init "" n hne).mpr (Or.inr (hreport n hn))
+    exact (mem_deltaWatched_first sub init "" n hne).mpr (Or.inr (hreport n hn))
   obtain ⟨resp, hpd, hsync, _⟩ := wild_push_sync t wn retained (fullOut W) hset hnr rfl rfl rfl hcover
   have hsr : shouldRespondDelta v.st r = .out true (v.st.set t (some { names := wn, wildcard := (deltaWatched [] r).2.1 })) := by
-    simp [shouldRespondDelta, shouldRespondDeltaG, deltaFirst, r, hfresh, hman, wn]
+    rw [delta_unwatched_is_first_request v.st r hfresh]
+    simp [r, hman, wn]
   have hnarrow : narrowedDelta t wn wn ([] : List String) = wn := by
     simp [narrowedDelta, hman]
   let s1 := v.st.set t (some { names := wn, wildcard := (deltaWatched [] r).2.1 })
@@ -162,10 +203,10 @@ theorem reconnect_processDelta_wild (gen : Gen) (v : Srv) (t : Ty)
   refine ⟨v', { ty := t, resources := resp.resources, removed := resp.removed, nonce := freshNonce v }, ?_, hsync, ?_⟩
   · have hpd' : pushDelta t wn (fullOut W) = some (resp, some (names W)) := hpd
     simp only [processDelta]
-    rw [show shouldRespondDelta v.st { ty := t, sub := ["*"], unsub := [], init := init, nonce := oldNonce, err := none }
+    rw [show shouldRespondDelta v.st { ty := t, sub := sub, unsub := [], init := init, nonce := oldNonce, err := err }
           = .out true s1 from hsr]
-    have hsub : (deltaWatched [] { ty := t, sub := ["*"], unsub := [], init := init, nonce := oldNonce, err := none : DReq }).1 = wn := rfl
-    simp only [hsub, List.filter_nil, pushDeltaOne, s1, State.set_same, hnarrow, hgen, hpd', hok,
+    have hsubw : (deltaWatched [] { ty := t, sub := sub, unsub := [], init := init, nonce := oldNonce, err := err : DReq }).1 = wn := rfl
+    simp only [hsubw, List.filter_nil, pushDeltaOne, s1, State.set_same, hnarrow, hgen, hpd', hok,
       Bool.false_eq_true, if_false, hcds, ne_eq, not_false_eq_true, Bool.false_or, Option.toList, v']
     simp [freshNonce]
   · exact ⟨{ names := names W, wildcard := (deltaWatched [] r).2.1, nonceSent := freshNonce v },
